@@ -161,7 +161,7 @@ class Run:
             self.violations.append({"obligation": oid, "function": fn, "what": what, "replay": None})
             return True
         self._replay_n += 1
-        d = os.path.join(VERIF, "replays", self.pid)
+        d = os.path.join(VERIF, "replays" if REPO == "/repo" else os.path.join(".scratch", "replays"), self.pid)
         os.makedirs(d, exist_ok=True)
         safe = "".join(c if c.isalnum() or c in "._-" else "_" for c in oid)[:80]
         path = os.path.join(d, f"{safe}.{self._replay_n}.json")
@@ -229,8 +229,10 @@ class Run:
         ev = {"property_id": self.pid, "tier": self.tier, "seed": int(self.seed), "level": level,
               "coverage": _jsonable(cov), "assumptions": self.assumptions, "wall_s": round(wall, 2),
               "violations": len(self.violations)}
-        os.makedirs(os.path.join(VERIF, "evidence"), exist_ok=True)
-        with open(os.path.join(VERIF, "evidence", f"{self.pid}.json"), "w") as fh:
+        # runs against a scratch copy of the repository (VERIF_REPO set by tools/try_seed.sh) never touch the committed evidence
+        evdir = os.path.join(VERIF, "evidence") if REPO == "/repo" else os.path.join(VERIF, ".scratch", "evidence")
+        os.makedirs(evdir, exist_ok=True)
+        with open(os.path.join(evdir, f"{self.pid}.json"), "w") as fh:
             json.dump(ev, fh, indent=1)
         print(f"[{self.pid}] tier={self.tier} seed={self.seed} level={level} proof-obligations={n_dis}/{n_obl} "
               f"bounded-evaluations={evals} distinct={distinct} violations={len(self.violations)} "
